@@ -41,9 +41,8 @@ def payload_of(e, variant):
     return e[0] == "field" and e[2] == 0 and e[3] == variant and peel_box(e[1]) == ("param", 1)
 
 
-def check(ctx):
-    from .ctors import check_table
-    check_table(ctx, "C05", "R05.6")
+def parser_legacy(ctx):
+    """the parser fills an output vector handed in by the caller: parse_from_plushy(flag, genes, &mut out)"""
     F = ctx.F
     f = ctx.fn(PARSE)
     at = f.at()
@@ -99,7 +98,7 @@ def check(ctx):
             if recs:
                 n_block += 1
                 bp = [c for c in pushes if c not in ip]
-                okb = len(recs) == 1 and len(bp) == 1
+                okb = len(recs) == 1 and len(bp) == 1 and len(recs[0][3]) == 3
                 if okb:
                     r = recs[0]
                     fresh = peel(r[3][2], ())
@@ -125,6 +124,137 @@ def check(ctx):
         ok = len(recs) == 1 and len(recs[0][3]) == 3 and match(recs[0][3][0], Const(1)) and match(recs[0][3][1], Through(Call("IntoIterator::into_iter", Param(1), nargs=1))) and \
             callee_is(peel(recs[0][3][2], ()), "Vec::new") and ps[0].ret == peel(recs[0][3][2], ())
     ctx.check(ok, "R05.3", "From<Plushy>/parse(true,genome.into_iter(),fresh)-returns-that-vec", short(ps[0].ret) if ps else "-", f.at())
+    return FROM_ID
+
+
+def parser_returning(ctx):
+    """the same clauses for the parser that builds and returns its own output vector: `fn parse_from_plushy(flag, genes) -> Vec<Self>`; the blocks
+    of an instruction are appended either by a 0..num_opens() loop (`out.push(Block(parse(false, genes)))`) or by one
+    `out.extend((0..num_opens()).map(|_| Block(parse(false, genes))))` (Range::map is lazy and Vec::extend consumes it front to back)"""
+    from . import ckit as K
+    F = ctx.F
+    f = ctx.fn(PARSE)
+    at = f.at()
+    paths = K.live(ctx.cpaths(f))
+    is_out = lambda e: callee_is(K.strip(e, calls=()), "Vec::new", "Vec::with_capacity", "Default::default")
+    is_genes = lambda e: K.strip(e, calls=()) == ("param", 2)
+    nexts = {c[4] for p in paths for c in p.calls() if callee_is(c, "Iterator::next") and is_genes(c[3][0])}
+    ctx.check(len(nexts) == 1, "R05.1", "single-cursor/one-next()-site-on-the-shared-iterator", "%d site(s)" % len(nexts), at)
+    outs = {K.strip(x, calls=()) for p in paths for c in p.calls() if callee_is(c, "Vec::push", "Extend::extend") for x in [c[3][0]] if is_out(x)} | \
+           {K.strip(p.ret, calls=()) for p in paths if p.end == "return" and p.ret is not None and is_out(p.ret)}
+    ctx.check(len(outs) == 1, "R05.1", "one-output-vector/created-empty-in-this-call", "%d candidate(s)" % len(outs), at)
+    if len(outs) != 1:
+        return
+    OUT = list(outs)[0]
+    to_out = lambda e: K.strip(e, calls=()) == OUT
+    adt = F.adts.get("push::genome::plushy::PushGene")
+    vidx = {v["name"]: v["discr"] for v in adt["variants"]} if adt else {}
+    n_instr = n_close = n_block = 0
+
+    def rec_ok(r):
+        return len(r[3]) == 2 and match(r[3][0], Const(0)) and is_genes(r[3][1])
+    for p in paths:
+        nx = [c for c in p.calls() if callee_is(c, "Iterator::next") and is_genes(c[3][0])]
+        if len(nx) != 1:
+            ctx.bad("R05.1", "single-cursor/one-gene-per-iteration", "%d reads of the shared iterator on one path: [%s]" % (len(nx), cond_str(p)[:200]), at)
+            continue
+        gene = ("field", nx[0], 0, "Some")
+        pushes = [c for c in p.calls() if callee_is(c, "Vec::push", "Vec::insert", "Vec::extend", "Extend::extend", "Vec::append", "Vec::extend_from_slice")]
+        recs = [c for c in p.calls() if callee_is(c, "PushProgram::parse_from_plushy")]
+        forbidden = [c for c in p.calls() if callee_is(c, "Clone::clone", "Vec::insert", "Vec::swap", "[T]::reverse", "[T]::swap", "Vec::remove", "Vec::pop", "Vec::truncate", "Vec::clear", "[T]::sort", "Vec::dedup", "Vec::drain", "Iterator::rev", "Iterator::skip", "Iterator::filter", "Iterator::step_by")]
+        if forbidden:
+            ctx.bad("R05.1", "no-clone/insert/reorder", "forbidden call(s): " + ", ".join(short(c, 3) for c in forbidden), at)
+        returns_out = p.end == "return" and p.ret is not None and to_out(p.ret)
+        if p.end == "return" and not returns_out:
+            ctx.bad("R05.3", "returns-the-output-vector", "a return path yields %s, not the vector the genes were appended to" % short(p.ret, 4), at)
+        if K.discr_is(p, lambda o: o == nx[0], 0):
+            ctx.check(returns_out and not pushes and not recs, "R05.3", "genes-exhausted->return(open-blocks-closed-here)", cond_str(p), at)
+            continue
+        gc = [c for c in p.conds if c[0] == ("discr", gene)]
+        if not gc:
+            ctx.bad("R05.1", "unclassified-gene-variant/-", "a path reads a gene without examining its variant: [%s]" % cond_str(p)[:200], at)
+            continue
+        if gc[0][1] == vidx.get("Close"):
+            n_close += 1
+            flag = [c for c in p.conds if c[0] == ("param", 1)]
+            nested = bool(flag) and flag[0][1] == 0
+            ctx.check(not pushes and not recs, "R05.1", "Close/appends-nothing/%s" % ("nested" if nested else "top-level"), cond_str(p), at)
+            if p.end == "return":
+                ctx.check(nested, "R05.3", "Close/returns-only-when-nested", cond_str(p), at,
+                          bad_detail="a Close gene returns from the parser on a path where the top-level flag is not known to be false: [%s]" % cond_str(p))
+            else:
+                ctx.check(p.end.startswith("loop:") and bool(flag) and flag[0][1] != 0, "R05.3", "Close/ignored-at-top-level(continue-with-next-gene)", cond_str(p), at)
+        elif gc[0][1] == vidx.get("Instruction"):
+            instr = ("field", gene, 0, "Instruction")
+            cs = p.calls()
+            ip = [c for c in pushes if callee_is(c, "Vec::push") and match(c[3][1], Agg("PushProgram::Instruction", lambda e: e == instr))]
+            others = [c for c in pushes if c not in ip]
+            ok = len(ip) == 1 and to_out(ip[0][3][0])
+            first_rec = min([cs.index(c) for c in recs + others], default=10 ** 9)
+            ok = ok and cs.index(ip[0]) < first_rec
+            n_instr += 1
+            ctx.check(ok, "R05.1", "Instruction/appended-once-to-current-output-before-recursion/%d" % n_instr, ", ".join(short(c, 4) for c in pushes), at,
+                      bad_detail="the instruction gene must be pushed exactly once as PushProgram::Instruction(gene) onto the current output before any recursive parse; pushes: " + ", ".join(short(c, 5) for c in pushes))
+            ctx.check(p.end.startswith("loop:"), "R05.2", "Instruction/arm-continues(no-early-exit-from-block-loop)/%d" % n_instr, p.end, at,
+                      bad_detail="a path through the Instruction arm leaves the parser (%s) before all of its num_opens() blocks were produced / the remaining genes were read: [%s]" % (p.end, cond_str(p)[-300:]))
+            count_range = Agg("Range::Range", Const(0), Call("NumOpens::num_opens", Through(lambda e: e == instr), nargs=1))
+            ext = [c for c in others if callee_is(c, "Extend::extend", "Vec::extend")]
+            if ext:
+                # one extend over (0..num_opens).map(|_| Block(parse(false, genes)))
+                b = {}
+                okl = len(others) == 1 and not recs and to_out(ext[0][3][0]) and match(ext[0][3][1], Through(Call("Iterator::map", count_range, Bind("clo"), nargs=2)), b) and \
+                    b["clo"][0] == "agg" and b["clo"][1] == "closure"
+                ctx.check(okl, "R05.2", "blocks/loop-over-0..num_opens(this-instruction)/%d" % n_instr, short(ext[0], 5), at,
+                          bad_detail="the blocks must be produced by 0..num_opens() of the instruction just appended; extracted " + short(ext[0], 7))
+                if okl:
+                    n_block += 1
+                    cps = [q for q in (closure_paths(ctx, b["clo"]) or []) if q.end != "unreachable"]
+                    okb = len(cps) == 1 and cps[0].end == "return" and not cps[0].conds
+                    if okb:
+                        r = cps[0].ret
+                        okb = match(r, Agg("PushProgram::Block", lambda e: callee_is(e, "PushProgram::parse_from_plushy"))) and rec_ok(r[3][0]) and len(cps[0].calls()) == 1
+                    ctx.check(okb, "R05.2", "blocks/recursive-parse(false,same-iterator,fresh-vec)-then-append-Block", short(cps[0].ret, 5) if cps else "-", at,
+                              bad_detail="per opened block: Block(parse_from_plushy(false, genes)) appended in order; extracted " + "; ".join(short(q.ret, 6) for q in cps))
+                continue
+            lp = [c for c in p.conds if c[0][0] == "discr" and callee_is(c[0][1], "Iterator::next") and c[0][1] != nx[0]]
+            okl = bool(lp) and match(lp[0][0][1][3][0], Through(Call("IntoIterator::into_iter", count_range, nargs=1))) or (bool(lp) and match(lp[0][0][1][3][0], Through(count_range)))
+            ctx.check(okl, "R05.2", "blocks/loop-over-0..num_opens(this-instruction)/%d" % n_instr, cond_str(p)[-220:], at,
+                      bad_detail="the block loop must iterate 0..num_opens() of the instruction just appended; conditions: " + cond_str(p)[-300:])
+            if recs:
+                n_block += 1
+                okb = len(recs) == 1 and len(others) == 1 and callee_is(others[0], "Vec::push")
+                if okb:
+                    r = recs[0]
+                    okb = rec_ok(r) and match(others[0][3][1], Agg("PushProgram::Block", lambda e: e == r)) and to_out(others[0][3][0])
+                    okb = okb and cs.index(r) + 1 == cs.index(others[0]) and lp and lp[0][1] == 1
+                ctx.check(okb, "R05.2", "blocks/recursive-parse(false,same-iterator,fresh-vec)-then-append-Block", ", ".join(short(c, 4) for c in recs + others), at,
+                          bad_detail="per opened block: out.push(Block(parse_from_plushy(false, genes))) right after the recursive parse; extracted " + ", ".join(short(c, 5) for c in recs + others))
+            elif others:
+                ctx.bad("R05.2", "blocks/recursive-parse(false,same-iterator,fresh-vec)-then-append-Block", "appends without a recursive parse: " + ", ".join(short(c, 5) for c in others), at)
+        else:
+            ctx.bad("R05.1", "unclassified-gene-variant/%s" % (gc[0][1],), "a PushGene variant without a rule", at)
+    ctx.floor("R05.1", n_instr, 1, "Instruction-arm paths")
+    ctx.floor("R05.3", n_close, 2, "Close-arm paths")
+    ctx.floor("R05.2", n_block, 1, "block-parsing paths")
+    ctx.check(adt is not None and sorted(vidx) == ["Close", "Instruction"], "R05.1", "PushGene-variants-all-classified", str(sorted(vidx)))
+    # entry point
+    f = ctx.trait_fn("std::convert::From::from", "std::vec::Vec<push::push_vm::program::PushProgram>")
+    ps = K.returning(K.live(ctx.cpaths(f)))
+    ok = len(ps) == 1
+    if ok:
+        r = K.strip(ps[0].ret, calls=())
+        ok = callee_is(r, "PushProgram::parse_from_plushy") and len(r[3]) == 2 and match(r[3][0], Const(1)) and match(r[3][1], Through(Call("IntoIterator::into_iter", Param(1), nargs=1))) and \
+            len([c for c in ps[0].calls() if callee_is(c, "PushProgram::parse_from_plushy")]) == 1
+    ctx.check(ok, "R05.3", "From<Plushy>/parse(true,genome.into_iter(),fresh)-returns-that-vec", short(ps[0].ret) if ps else "-", f.at())
+
+
+def check(ctx):
+    from .ctors import check_table
+    check_table(ctx, "C05", "R05.6")
+    F = ctx.F
+    from . import ckit as K
+    K.either(ctx, parser_legacy, parser_returning)
+    FROM_ID = ctx.trait_fn("std::convert::From::from", "std::vec::Vec<push::push_vm::program::PushProgram>").id
     f = ctx.fn("<push::genome::plushy::Plushy as std::iter::IntoIterator>::into_iter")
     ps = return_paths(ctx.paths(f))
     ctx.check(len(ps) == 1 and match(ps[0].ret, Call("IntoIterator::into_iter", Field(Param(1), "genes"), nargs=1)) and len(ps[0].calls()) == 1, "R05.1", "Plushy::into_iter=genes.into_iter()", short(ps[0].ret), f.at())
@@ -187,5 +317,5 @@ def check(ctx):
     cg = CallGraph(F)
     scope = cg.reach([FROM_ID, PARSE]) | {fn.id for fn in F.fns.values() if fn.trait_item == T + "::num_opens"} | {T + "::num_opens"}
     sites = audit_panics(ctx, "R05.5", scope, [], floor=0)
-    pushes_seen = sum(1 for b in F.fns[PARSE].blocks if b["term"]["k"] == "call" and path_ends(b["term"].get("fn") or "", "Vec::push"))
-    ctx.check(pushes_seen >= 2 and len(scope) >= 20, "R05.5", "positive-control/audit-saw-the-translation", "%d functions in scope, %d Vec::push sites in the parser, %d may-panic sites" % (len(scope), pushes_seen, len(sites)))
+    pushes_seen = sum(1 for b in F.fns[PARSE].blocks if b["term"]["k"] == "call" and (path_ends(b["term"].get("fn") or "", "Vec::push") or path_ends(b["term"].get("fn") or "", "Extend::extend")))
+    ctx.check(pushes_seen >= 2 and len(scope) >= 9, "R05.5", "positive-control/audit-saw-the-translation", "%d functions in scope, %d append sites in the parser, %d may-panic sites" % (len(scope), pushes_seen, len(sites)))
